@@ -17,9 +17,10 @@ RULE = (
     "single winner x share f in {1/3,1/2,2/3,3/4} (super-majority), style on and off: (i) all pairwise assorter means "
     "> 1/2 iff every winner has strictly more marks than every loser (reference tally by counting); (ii) super-majority "
     "mean > 1/2 iff W > f V with V = ballots with exactly one mark; (iii) every assort value in [0, upper bound], no "
-    "exception; (iv) margin from Contest.tally + find_margin_from_tally equals 2*mean-1 over the same cards.  A second "
-    "sweep replaces the canonical True/False by every documented truthy (True,1,5,'marked') and falsy (False,0,'') "
-    "encoding.  Non-trivial = profile with a tie, an overvote or an exact-threshold super-majority; distinct = distinct "
+    "exception; (iv) margin from Contest.tally + find_margin_from_tally equals 2*mean-1 over the same cards, and so does the "
+    "margin from a tally handed to find_margin_from_tally while the contest's own tally is absent or stale.  A second "
+    "sweep replaces the canonical True/False by truthy (True,1,5,'marked',NaN,numpy 1/True,'0',-1,0.5) and falsy (False,0,'',None,0.0,numpy 0/False) "
+    "encodings (each truthy value with False, each falsy value with True, and a diagonal of other pairs).  Non-trivial = profile with a tie, an overvote or an exact-threshold super-majority; distinct = distinct "
     "(m, profile) with such a feature"
 )
 ASSUMPTIONS = [
@@ -35,8 +36,19 @@ SHARES = [1 / 3, 1 / 2, 2 / 3, 3 / 4]
 SHARE_EXACT = {1 / 3: F(1, 3), 1 / 2: F(1, 2), 2 / 3: F(2, 3), 3 / 4: F(3, 4)}  # the shares meant; floats differ by < 1e-16
 NAMES = ["A", "B", "C", "D"]
 CID = "c1"
-TRUTHY = [True, 1, 5, "marked"]
-FALSY = [False, 0, ""]
+# "@..." tokens name encodings that JSON cannot carry; _dec turns them into the values
+TRUTHY = [True, 1, 5, "marked", "@nan", "@np.int64(1)", "@np.True_", "0", -1, 0.5]
+FALSY = [False, 0, "", None, 0.0, "@np.False_", "@np.int64(0)"]
+_SPECIAL = {"@nan": float("nan"), "@np.int64(1)": np.int64(1), "@np.True_": np.True_, "@np.False_": np.False_, "@np.int64(0)": np.int64(0)}
+
+
+# every truthy value with False, every falsy value with True, and a diagonal pairing each truthy value with another falsy one
+ENC_PAIRS = [(t, False) for t in TRUTHY] + [(True, f) for f in FALSY[1:]] + [(t, FALSY[1 + i % (len(FALSY) - 1)]) for i, t in enumerate(TRUTHY[1:])]
+
+
+def _dec(x):
+    return _SPECIAL[x] if isinstance(x, str) and x in _SPECIAL else x
+
 
 
 def bounds(tier):
@@ -53,6 +65,7 @@ def make_cvr(i, b, t=True, f=False):
     # every card also carries an unrelated earlier contest "c0" (overvoted on even cards): tallies of one contest
     # must not depend on what the card shows in another
     c0 = {"A": True, "B": True} if i % 2 == 0 else {"A": True}
+    t, f = _dec(t), _dec(f)
     if b is None:
         return CVR(id=f"b{i}", votes={"c0": c0, "other": {"X": True}})
     v = {}
@@ -150,6 +163,18 @@ def judge(m, prof, enc=(True, False)):
                                     if abs(tm - float(2 * mean - 1)) > 1e-12:
                                         out.append((f"C02|tally-margin|plurality", f"margin from tally {tm} but 2*mean-1 = {float(2*mean-1)} over the same {len(pool)} cards "
                                                     f"(enforce_rules={enforce}, style {style})"))
+                                # a tally handed in by the caller, while the contest's own tally is absent or out of date
+                                given = {NAMES[c]: tally_pool(marks, pool, c) for c in range(m)}
+                                for own in (None, {NAMES[c]: 7 + c for c in range(m)}):
+                                    con.tally = own
+                                    try:
+                                        a.find_margin_from_tally(dict(given))
+                                        tm = a.margin
+                                    except Exception as e:  # noqa
+                                        out.append((f"C02|tally-margin|explicit|exception|{type(e).__name__}", f"find_margin_from_tally(tally) raised {type(e).__name__}: {e} (contest tally {own})"))
+                                        continue
+                                    if abs(tm - float(2 * mean - 1)) > 1e-12:
+                                        out.append(("C02|tally-margin|explicit|plurality", f"margin from the given tally {given} is {tm} but 2*mean-1 = {float(2*mean-1)} (contest's own tally {own})"))
                         if all_gt is not None and kind == Contest.SOCIAL_CHOICE_FUNCTION.PLURALITY:
                             really = all(tally_pool(marks, pool, w) > tally_pool(marks, pool, l) for w in W for l in Ls)
                             if really != all_gt:
@@ -212,6 +237,17 @@ def judge(m, prof, enc=(True, False)):
                         if not (abs(tm - float(2 * mean - 1)) <= 1e-12):
                             out.append(("C02|tally-margin|supermajority", f"margin from tally {tm} but 2*mean-1 = {float(2*mean-1)} (cards {len(pool)}, valid {V}, winner {Wv}, "
                                         f"share {share}, enforce_rules={enforce})"))
+                    given = {NAMES[c]: sum(marks[i][c] for i in valid) for c in range(m)}
+                    for own in (None, {NAMES[c]: 7 + c for c in range(m)}):
+                        con.tally = own
+                        try:
+                            a.find_margin_from_tally(dict(given))
+                            tm = a.margin
+                        except Exception as e:  # noqa
+                            out.append((f"C02|tally-margin|explicit|exception|{type(e).__name__}", f"super-majority find_margin_from_tally(tally) raised {type(e).__name__}: {e} (contest tally {own})"))
+                            continue
+                        if not (abs(tm - float(2 * mean - 1)) <= 1e-12):
+                            out.append(("C02|tally-margin|explicit|supermajority", f"margin from the given tally {given} is {tm} but 2*mean-1 = {float(2*mean-1)} (share {share}, contest's own tally {own})"))
     # de-duplicate keys (keep first message)
     seen, ded = set(), []
     for k, w in out:
@@ -291,8 +327,8 @@ def run_shard(sh, rec):
         _, m, B, first = sh
         for prof in profiles(m, B, first):
             base = repr(judge_vals(m, prof, (True, False)))
-            for t in TRUTHY:
-                for f in FALSY:
+            for t, f in ENC_PAIRS:
+                if True:
                     rec.evals()
                     rec.vac("encoding_sweep_cases")
                     v, _ = judge(m, prof, (t, f))
